@@ -324,3 +324,8 @@ UNITS += [add_instantiator_unit("C14"), get_instantiators_unit("C14"), class_ins
 
 from contracts.share import carried as _carried  # noqa: E402
 UNITS += _carried("C14")
+
+# "init_args without class_path" denotes the class of the declared default: _check_type hands adapt_typehints the default's class_path as the previous value
+# whenever the configuration parsed so far holds none - also when that configuration is still empty (parse_string / parse_path / default config files)
+from contracts.check_type import check_type_unit as _check_type_unit  # noqa: E402
+UNITS.append(_check_type_unit("C14"))
